@@ -224,16 +224,18 @@ class RefTree:
 
 class EvalInfo:
     """side information about one evaluation (what the verdict may rely on)."""
-    __slots__ = ('order_dep', 'doc_upward', 'fp_from_attr_ns', 'reverse', 'positional', 'nonelem_ctx', 'max_inter')
+    __slots__ = ('order_dep', 'doc_upward', 'fp_from_attr_ns', 'reverse', 'positional', 'nonelem_ctx', 'max_inter',
+                 'preceding_from_doc_child')
 
     def __init__(self):
         self.order_dep = False        # a positional predicate saw >= 2 attributes / namespace nodes of one element
-        self.doc_upward = False       # a dummy document node was reached through an axis step
+        self.doc_upward = False       # an explicit axis step had the dummy document node on its axis
         self.fp_from_attr_ns = False  # following/preceding evaluated from an attribute/namespace context node
         self.reverse = False
         self.positional = False
         self.nonelem_ctx = False      # some step was evaluated from a non-element, non-document context node
         self.max_inter = 0
+        self.preceding_from_doc_child = False   # preceding:: evaluated from a child of the document node
 
 
 _PRINCIPAL = {'attribute': 'attribute', 'namespace': 'namespace'}
@@ -333,8 +335,8 @@ class Evaluator:
         return cands
 
     # -- steps / paths ---------------------------------------------------------
-    def step(self, ctx_nodes, step, info):
-        sep, axis, test, preds = step[0], step[1], step[2], step[3]
+    def step(self, ctx_nodes, step, info, implicit=False):
+        axis, test, preds = step[1], step[2], step[3]
         out = {}
         if axis in REVERSE:
             info.reverse = True
@@ -343,10 +345,11 @@ class Evaluator:
                 info.nonelem_ctx = True
             if axis in ('following', 'preceding') and n.kind in ('attribute', 'namespace'):
                 info.fp_from_attr_ns = True
+            if axis == 'preceding' and n.parent is not None and n.parent.kind == 'document':
+                info.preceding_from_doc_child = True
             cands = [m for m in self.t.axis(n, axis) if self.test(m, axis, test)]
-            if self.t.dummy_doc and axis in ('parent', 'ancestor', 'ancestor-or-self') and \
-                    any(m.kind == 'document' for m in self.t.axis(n, axis)):
-                info.doc_upward = True
+            if self.t.dummy_doc and not implicit and any(m.kind == 'document' for m in self.t.axis(n, axis)):
+                info.doc_upward = True      # an explicit step reaches the implicit document node
             for m in self.filter(cands, preds, info):
                 out[id(m)] = m
         res = sorted(out.values(), key=lambda m: m.order)
@@ -356,7 +359,7 @@ class Evaluator:
     def steps(self, nodes, steps, info, first_has_sep):
         for i, st in enumerate(steps):
             if st[0] == '//' and (first_has_sep or i > 0):
-                nodes = self.step(nodes, ['/', 'descendant-or-self', ['node'], [], 0], info)
+                nodes = self.step(nodes, ['/', 'descendant-or-self', ['node'], [], 0], info, True)
             nodes = self.step(nodes, st, info)
         return nodes
 
@@ -374,7 +377,7 @@ class Evaluator:
                 return self.steps([ctx], steps, info, False)
             nodes = [self.t.top]
             if ab == 2:
-                nodes = self.step(nodes, ['/', 'descendant-or-self', ['node'], [], 0], info)
+                nodes = self.step(nodes, ['/', 'descendant-or-self', ['node'], [], 0], info, True)
             return self.steps(nodes, steps, info, False)
         if k == 'fpath':
             nodes = self.expr(e[1], ctx, info)
